@@ -349,3 +349,5 @@ META = {
     'not_decided': 'that the written numbers sum to 1 (floating point); completeness relative to the parse is C05.R6',
     'technique': 'template matching + rational-function identity check on the extracted expression + effect-set rule',
 }
+
+META['explanation'] += ' ' + 'Further: every CFG path from the coverage != 1 branch to the save inserts the Markov pseudo-count; memoisation discipline; name-based uuids are deterministic.'
